@@ -4,27 +4,34 @@ import os
 
 from lib import vf, cbuild
 from gen import mframe
+from props import c11_sched, c11_fwrt
 
 ID = "C11"
 LEVEL = "proof"
-LEAN_MODULES = ["OsmoVerif.Props.C11"]
-DRIVER_MODULES = ["Mframe"]
-LEAN_MODEL_MODULES = ["OsmoVerif.Model.Mframe", "OsmoVerif.Spec.Mframe", "OsmoVerif.Lemmas.Mframe",
-                      "OsmoVerif.Gen.FwMframe", "OsmoVerif.Gen.TrxconMframe"]
+LEAN_MODULES = ["OsmoVerif.Props.C11", "OsmoVerif.Props.C11Trx", "OsmoVerif.Props.C11Fw"]
+DRIVER_MODULES = ["Mframe", "TrxSched"]
+LEAN_MODEL_MODULES = ["OsmoVerif.Model.Mframe", "OsmoVerif.Model.TrxSched", "OsmoVerif.Spec.Mframe",
+                      "OsmoVerif.Lemmas.Mframe", "OsmoVerif.Lemmas.MframeRt", "OsmoVerif.Lemmas.TrxSched",
+                      "OsmoVerif.Gen.FwMframe", "OsmoVerif.Gen.TrxconMframe", "OsmoVerif.Gen.TrxconLchanDesc"]
 ASSUMPTIONS = [
     "theorems are about OsmoVerif.Model.Mframe (hand models of mframe_schedule_set's trigger arithmetic and of the mframe_schedule() task loop with the C widths; of l1sched_mframe_layout(); of the frames[fn % period] lookup of sched_trx.c) over tables regenerated on every run: every mf_*[] table, sched_set_for_task[], SCHEDULE_AHEAD/LATENCY, MF_F_*; layouts[] and every frame_*[] table with the enumerator names",
     "the only hand-written bridge is OsmoVerif.Spec.Mframe: firmware task <-> (channel combination, logical channel, SACCH channel, directions, valid timeslots), written from TS 45.002 clause 7; direction served by each firmware sched set (nb_sched_set = Downlink block, nb_sched_set_ul = Uplink block, tch_sched_set / tch_a_sched_set = one burst received and transmitted in the same frame, tch_d_sched_set and neigh_pm_sched_set own no frame) is part of that Spec",
     "modelled, not verified: the first burst of a set handed to tdma_schedule_set(frame_offset = SCHEDULE_AHEAD - SCHEDULE_LATENCY, ...) at tick fn is on the air in frame fn + frame_offset + 1 (Calypso DSP executes a command one frame after it is written to the API page; the contents of the sched sets in prim_rx_nb.c / prim_tx_nb.c / prim_tch.c are outside the anchored code); SCHEDULE_LATENCY must equal that hardware latency for theorem trigger_air_frame",
     "modelled, not verified (note N15): layouts[0] = GSM_PCHAN_NONE has period 0 and frames NULL, a frame lookup in it divides by zero (theorem none_layout_excluded); the callers never configure it: l1sched_configure_ts() is only reached from trxcon_fsm.c with a combination derived by l1sched_chan_nr2pchan_config() / l1ctl ccch_mode, none of which yields GSM_PCHAN_NONE, and l1sched_pull_burst() / the Downlink path return early when ts->mf_layout == NULL; these guards are listed, not proved",
     "left out because only one stack implements it: Uplink of PDTCH (firmware mf_gprs_pdtch is a receive-only task), PTCCH (firmware mf_gprs_ptcch is empty), extended BCCH (no lchan in trxcon, the block is CCCH there), FCCH/SCH/RACH (not multiframe tasks in the firmware), neighbour measurement and the TX test task (no logical channel); theorems spec_covers_layouts / spec_covers_tasks / dl_only_channels_have_no_uplink prove that nothing else is left out",
-    "the task enable/disable latching of mframe_schedule() (tasks_tgt, safe_fn) is not part of the mapping and is not modelled; the harness runs every task (and seeded task sets) from mframe_reset()+mframe_set(), where tasks == tasks_tgt at every tick",
+    "firmware runtime (Props/C11Fw): mframe_enable / mframe_disable / mframe_set / mframe_reset and mframe_schedule() with the tasks_tgt -> tasks latch and the safe_fn bookkeeping (ADD_MODULO, uint32_t / int conversions) are modelled statement by statement; the value tdma_schedule_set() returns (frames the set spans, or the bucket-overflow error) is the environment: a function of the sched set supplied with every request; `1 << 31` is taken as the bit pattern 0x80000000; task ids >= 32 (undefined shift) and task bits without a table (NULL dereference) are explicit crash outcomes, outside the property's domain (the 29 enumerators of enum mframe_task)",
+    "trxcon consumers (Props/C11Trx): sched_trx.c is compiled unchanged (clang, ASan+UBSan) against declaration-only shim headers (harness/c/shim_trxsched over shim_trxcon: talloc -> calloc, libosmocore list primitives, RSL channel numbers, GSM_TDMA_FN_INC) together with the unchanged sched_lchan_desc.c and sched_mframe.c; the environment is the harness: the lchan Rx/Tx handlers named in sched_lchan_desc.c record (lchan type, tn, fn, bid) and do nothing else, the primitive sink records the PCHAN_COMB indications, talloc never fails, the Tx primitive queue is empty (no handover-RACH override in l1sched_pull_burst), A5 is off; modelled state of a timeslot: mf_layout, list-head-initialised flag, channel states in list order with type / active / tdma statistics (unsigned long = 64 bit); not modelled: burst buffers, AMR/SACCH/measurement state",
+    "out-of-table detection on the real code: the linker option --wrap=l1sched_mframe_layout hands sched_trx.c a copy of the layout the real function returned whose frame table (true length taken from the array definition) lies between ASan-poisoned guard rows; every request runs in a forked child, a poisoned read is reported as crash:out-of-table, a division by zero as crash:period-zero, a NULL dereference as crash:null",
+    "modelled, not verified: GSM_TDMA_HYPERFRAME = 2715648 and the errno names come from the environment (libosmocore / libc); frame numbers handed to l1sched_handle_rx_burst are below the hyperframe (trx_if.c drops others) and tn is 0..7 (callers mask with 7): hypotheses of the theorems, larger values are in the differential tie but outside the property's domain",
+    "known and excluded by hypothesis (reported, not a C11 violation): a FIRST l1sched_configure_ts() that fails with -EINVAL (no layout for the combination and timeslot) leaves a talloc_zero'ed timeslot whose list head was never initialised; a following l1sched_del_ts / l1sched_reset / l1sched_reset_ts / l1sched_configure_ts on it walks a NULL list head (theorem failed_first_configure_then_delete; the real code crashes the same way in the tie); the callers only pass combinations that have layouts",
     "libosmocore environment of sched_mframe.c replaced by declaration-only shim headers (harness/c/shim_trxcon; enum gsm_phys_chan_config in the upstream order, names printed by the dumper); firmware environment by harness/c/shim; both code files are compiled unchanged",
-    "model tied to the real code by running mframe_schedule() for every tick of a 51*26*8 cycle for every task (recording tdma_schedule_set stub), and l1sched_mframe_layout() + the frame lookup for every (combination, timeslot) and every frame number of the cycle, against the Lean driver",
+    "model tied to the real code by running mframe_schedule() for every tick of a 51*26*8 cycle for every task (recording tdma_schedule_set stub), and l1sched_mframe_layout() + the frame lookup for every (combination, timeslot) and every frame number of the cycle, against the Lean driver; the scheduler state machine over full cycles with random task sets and enable/disable/set in between and arbitrary states at the hyperframe / uint32 edges (mf.run); l1sched_configure_ts for every (combination value, timeslot), rx / tx / probe for every frame number of the cycle with all channels active, lost-frame compensation through the API for every Downlink channel of every layout (elapsed 1 .. >104, hyperframe wrap) and with injected tdma state, random histories incl. the crash outcomes (ts.seq)",
+    "differences between code and model on requests outside the property's domain (task bits 29..31, task ids >= 32, timeslots >= 8, combinations without layout, frame numbers >= 2715648) or where the model answers crash:... are counted in the evidence and are not a broken tie; the oracle judges in-domain inputs only",
 ]
 MANIFEST = {
-    "text": "Lean 4 theorems over tables regenerated from mframe_sched.c and sched_mframe.c on every run: for every pairing of the TS 45.002 correspondence table, every valid timeslot, direction and frame number the firmware starts a block (schedules a TCH / SACCH frame) exactly when trxcon's layout marks burst 0 (owns the frame) [mapping_agrees, block_starts_agree, tch_frames_agree]; burst ids cyclic for all frame numbers [bids_cyclic]; no lookup leaves the table [lookup_in_table]; channels in mask [chans_in_mask]; layout lookup valid and total [layout_lookup_valid, layout_lookup_total]; trigger arithmetic [trigger_model]; nothing left out of the correspondence [spec_covers_layouts, spec_covers_tasks]; each is kernel evaluation of a Boolean checker (decide +kernel) plus a lifting lemma to all frame numbers; models compared with the real mframe_schedule() and l1sched_mframe_layout() over a full 51*26*8 cycle; independent Python oracle on the dumped tables and real outputs",
+    "text": "Consumers: for every layout, timeslot state and frame number no lookup of l1sched_handle_rx_burst / l1sched_pull_burst / l1sched_handle_rx_probe / subst_frame_loss leaves the table and the frame used is row fn % period [rx_lookup_in_table, tx_lookup_in_table, probe_lookup_in_table, rx_stream_total]; l1sched_configure_ts creates exactly the channel states of the layout's mask with the real 64-bit mask arithmetic, so every channel of every frame has a state [configure_ts_states, configured_channels_have_state]; lost-frame compensation substitutes exactly the layout's frames of the channel in the lost interval with the layout's burst ids, nothing beyond one period [subst_frame_loss_exact, mem_lostFrames, rx_burst_delivery]; firmware runtime: at every tick exactly the firing rows of the active tasks are handed to tdma_schedule_set, each once, with offset AHEAD-LATENCY and p3 = id | flags<<8 [schedule_calls_exact, call_arguments], no index outside sched_set_for_task[] [schedule_index_in_range], disable at the next mframe_schedule, enable at the first one with nothing in the way [disable_takes_effect, enable_takes_effect, task_off_stays_off]. Lean 4 theorems over tables regenerated from mframe_sched.c and sched_mframe.c on every run: for every pairing of the TS 45.002 correspondence table, every valid timeslot, direction and frame number the firmware starts a block (schedules a TCH / SACCH frame) exactly when trxcon's layout marks burst 0 (owns the frame) [mapping_agrees, block_starts_agree, tch_frames_agree]; burst ids cyclic for all frame numbers [bids_cyclic]; no lookup leaves the table [lookup_in_table]; channels in mask [chans_in_mask]; layout lookup valid and total [layout_lookup_valid, layout_lookup_total]; trigger arithmetic [trigger_model]; nothing left out of the correspondence [spec_covers_layouts, spec_covers_tasks]; each is kernel evaluation of a Boolean checker (decide +kernel) plus a lifting lemma to all frame numbers; models compared with the real mframe_schedule() and l1sched_mframe_layout() over a full 51*26*8 cycle; independent Python oracle on the dumped tables and real outputs",
     "note": "trusted: Lean kernel (+propext, Classical.choice, Quot.sound), the two C dumpers (harness/c/c11_fw_dump.c, c11_trxcon_dump.c) and gen/mframe.py, the correspondence table Spec/Mframe.lean (about 40 lines, from TS 45.002 clause 7), shim headers; modelled not verified: air frame of a scheduled set = tick + SCHEDULE_AHEAD, caller guards that keep the NONE layout unreachable (N15); left out: PDTCH Uplink, PTCCH, BCCH ext (one stack only)",
-    "technique": "Lean 4 proof by kernel evaluation over regenerated tables + lifting lemmas; differential correspondence with the compiled C of both stacks over a full cycle",
+    "technique": "Lean 4 proof by kernel evaluation over regenerated tables + lifting lemmas, inductive proofs over the statement-level models of sched_trx.c and of the mframe_sched.c runtime; differential correspondence with the compiled C of both stacks over a full cycle (sched_trx.c under ASan/UBSan with poisoned guard rows around every frame table)",
     "design_ref": "DESIGN.md section 5 C11, note N15",
 }
 
@@ -33,13 +40,14 @@ CYCLE = 51 * 26 * 8
 # detector: a different hash is recorded in the evidence, it is not an alarm; the
 # correspondence below is exhaustive over the cycle in both tiers, so there is nothing to escalate)
 DRIFT_BASE = {
-    "src/target/firmware/layer1/mframe_sched.c": "c7cdde91738e4b93",
+    "src/target/firmware/layer1/mframe_sched.c": "99200bcc332c55a5",
     "src/host/trxcon/src/sched_mframe.c": "562a77089138dc42",
-    "src/host/trxcon/src/sched_trx.c": "1b6a35efdb39894f",
+    "src/host/trxcon/src/sched_trx.c": "9980cadb1a1a7720",
 }
 CHUNK = 104
 TRX_SRC = "src/host/trxcon/src/sched_mframe.c"
 FW_SRC = "src/target/firmware/layer1/mframe_sched.c"
+TRX_SCHED_SRC = "src/host/trxcon/src/sched_trx.c"
 
 
 def gen(run):
@@ -48,7 +56,7 @@ def gen(run):
 
 def tables(run):
     if getattr(run, "mf", None) is None:
-        run.mf = {"fw": mframe.dump_fw(run), "trxcon": mframe.dump_trxcon(run)}
+        run.mf = {"fw": mframe.dump_fw(run), "trxcon": mframe.dump_trxcon(run), "desc": mframe.dump_desc(run)}
     return run.mf
 
 
@@ -56,11 +64,11 @@ def build_fw(run):
     if getattr(run, "c11_fw", None):
         return run.c11_fw
     mframe.fw_names(run)
-    o1 = cbuild.firmware_obj(run, "layer1/mframe_sched.c", "c11_mframe_sched")
+    o1 = cbuild.firmware_obj(run, "layer1/mframe_sched.c", "c11_mframe_sched", extra_flags=cbuild.CONSOLE_FLAGS)
     o2 = cbuild.obj(run, os.path.join(vf.ROOT, "harness/c/c11_fw_harness.c"), "c11_fw_harness",
                     flags=["-DHOST_BUILD"], includes=[run.scratch, cbuild.SHIM, cbuild.LIBOSMO_INC, cbuild.TOP_INC],
                     idirafter=[cbuild.FW_INC])
-    run.c11_fw = cbuild.link(run, [o2, o1], "c11_fw_harness.bin")
+    run.c11_fw = cbuild.link(run, [o2, o1, cbuild.console_sink(run)], "c11_fw_harness.bin")
     return run.c11_fw
 
 
@@ -68,9 +76,9 @@ def build_trxcon(run):
     if getattr(run, "c11_trxcon", None):
         return run.c11_trxcon
     inc = [mframe.SHIM_TRXCON, mframe.TRXCON_INC]
-    o1 = cbuild.obj(run, os.path.join(vf.REPO, TRX_SRC), "c11_sched_mframe", includes=inc)
+    o1 = cbuild.obj(run, os.path.join(vf.REPO, TRX_SRC), "c11_sched_mframe", includes=inc, flags=cbuild.CONSOLE_FLAGS)
     o2 = cbuild.obj(run, os.path.join(vf.ROOT, "harness/c/c11_trxcon_harness.c"), "c11_trxcon_harness", includes=inc)
-    run.c11_trxcon = cbuild.link(run, [o2, o1], "c11_trxcon_harness.bin")
+    run.c11_trxcon = cbuild.link(run, [o2, o1, cbuild.console_sink(run)], "c11_trxcon_harness.bin")
     return run.c11_trxcon
 
 
@@ -156,11 +164,43 @@ def trx_real(run):
 
 
 # ----------------------------------------------------------------------------
+# the domain the property quantifies over: the enumerators of enum mframe_task, timeslots 0..7, the channel
+# combinations layouts[] has, frame numbers below the hyperframe
+
+H = 26 * 51 * 2048
+
+
+def in_domain(run):
+    tb = tables(run)
+    valid = 0
+    for _, v in tb["fw"]["tasks"]:
+        valid |= 1 << v
+    cfgs = {l["config"] for l in tb["trxcon"]["layouts"]}
+
+    def f(req):
+        t = req.split()
+        try:
+            a = [int(x) for x in t[1:]]
+        except ValueError:
+            return False
+        if t[0] == "mf.fw":
+            return len(a) == 3 and not a[0] & ~valid and a[1] + a[2] <= H
+        if t[0] == "mf.layout":
+            return len(a) == 2 and a[0] in cfgs and a[1] <= 7
+        if t[0] == "mf.frames":
+            return len(a) == 4 and a[0] in cfgs and a[1] <= 7 and a[2] + a[3] <= H
+        return False
+    return f
+
+
+def model_ub(ans):
+    return ans.startswith("crash:")
+
 
 def correspond(run, corr):
-    for rel, names in ((FW_SRC, ["mframe_schedule_set", "mframe_schedule", "mframe_set", "mframe_reset"]),
+    for rel, names in ((FW_SRC, ["mframe_schedule_set", "mframe_schedule", "mframe_set", "mframe_reset", "mframe_enable", "mframe_disable"]),
                        (TRX_SRC, ["l1sched_mframe_layout"]),
-                       ("src/host/trxcon/src/sched_trx.c", ["l1sched_pull_burst"])):
+                       ("src/host/trxcon/src/sched_trx.c", c11_sched.FUNCS)):
         run.drift[rel] = vf.src_hash_c(os.path.join(vf.REPO, rel), names)
         if run.drift[rel] != DRIFT_BASE.get(rel):
             corr.notes.append("source drift: modelled functions of %s changed since the model was written" % rel)
@@ -179,7 +219,6 @@ def correspond(run, corr):
     allmask = 0
     for t in valid:
         allmask |= 1 << t
-    H = 26 * 51 * 2048
     for mask in (allmask, 1 << run.rng.choice(valid), 0):
         extra.append("mf.fw %d %d %d" % (mask, H - 110, 110))
         extra.append("mf.fw %d %d %d" % (mask, 2 ** 32 - 60, 60))
@@ -188,7 +227,8 @@ def correspond(run, corr):
     reqs = reqs + extra
     impl = impl + eimpl
     model = vf.run_driver(reqs)
-    corr.compare(reqs, impl, model)
+    dom = in_domain(run)
+    corr.compare(reqs, impl, model, in_domain=dom, model_ub=model_ub)
     for r, a in zip(reqs, impl):
         corr.count(r, "mf.fw " + ("crash" if a.startswith("crash") else ("no-event" if a == "-" else "events")))
     corr.samples += [{"request": r, "impl": a[:300], "model": b[:300]} for r, a, b in list(zip(reqs, impl, model))[41:43]]
@@ -206,17 +246,27 @@ def correspond(run, corr):
     treqs = treqs + textra
     timpl = timpl + teimpl
     tmodel = vf.run_driver(treqs)
-    corr.compare(treqs, timpl, tmodel)
+    corr.compare(treqs, timpl, tmodel, in_domain=dom, model_ub=model_ub)
     for r, a in zip(treqs, timpl):
         corr.count(r, r.split()[0] + (" none" if a == "none" else (" crash" if a.startswith("crash") else "")))
     corr.samples += [{"request": r, "impl": a[:200], "model": b[:200]} for r, a, b in list(zip(treqs, timpl, tmodel))[11:13]]
+    # the runtime of the firmware scheduler and the consumers of the layouts in sched_trx.c
+    c11_fwrt.correspond(run, corr, tables(run)["fw"], build_fw(run))
+    c11_sched.correspond(run, corr, tables(run))
     corr.exhaustive = True
     corr.rule = ("firmware: real mframe_reset()+mframe_set()+mframe_schedule() for every tick of a 51*26*8 cycle for every single "
                  "task bit 0..31 (one request per task and 104-tick range; bits without a table give the crash outcome), seeded "
                  "random task sets over the full cycle, ranges at the hyperframe end and at the uint32 wrap; trxcon: real "
                  "l1sched_mframe_layout() for every combination value 0..max+2 and 200 and timeslots 0..9 and 30, and the "
                  "frames[fn % period] lookup for every frame of the cycle for every (combination, timeslot) that has a layout, plus "
-                 "ranges at the hyperframe end, at 2^32 and at a seeded offset; a case is a distinct request line")
+                 "ranges at the hyperframe end, at 2^32 and at a seeded offset; firmware runtime (mf.run): reset + random task "
+                 "sets over the full cycle in segments with enable / disable / set in between, per-set return values of the "
+                 "TDMA scheduler, and arbitrary scheduler states with ticks at safe_fn +- 2, half a hyperframe, the hyperframe "
+                 "and uint32 wrap; trxcon consumers (ts.seq on the real sched_trx.c): configure for every (combination value, "
+                 "timeslot), rx/tx for every frame number of the cycle (one timeslot per layout in the quick tier, all in "
+                 "the thorough tier) and probe for every row with all channels active, lost-frame compensation through the "
+                 "API for every Downlink channel of every layout plus injected tdma states, seeded random histories incl. "
+                 "the crash outcomes; a case is a distinct request line")
 
 
 # ----------------------------------------------------------------------------
@@ -421,8 +471,13 @@ def oracle(run):
 
 def search(run, corr, deep):
     wit = oracle(run)
+    tb = tables(run)
+    w2 = c11_sched.oracle(run, tb)
+    w3 = c11_fwrt.oracle(run, tb["fw"], build_fw(run))
+    corr.distribution["oracle: witnesses (consumers of the layouts)"] = len(w2)
+    corr.distribution["oracle: witnesses (firmware runtime)"] = len(w3)
     found = 0
-    for w in wit[:20]:
+    for w in wit[:20] + w2[:12] + w3[:6]:
         found += run.report_witness(w)
     corr.distribution["oracle: spec pairings x timeslots x directions checked over the cycle"] = \
         sum(len(e[2]) * len(e[5]) for e in spec_table())
@@ -439,8 +494,15 @@ def replay(run, path):
         if not w:
             print("replay: no concrete input recorded (%s)" % json.dumps(v.get("broken"))[:400])
             continue
-        keys = [k for k in ("kind", "task", "config", "tn", "dir", "sacch", "channel", "frame", "layout_index", "fn") if k in w]
-        hit = [x for x in now if all(x.get(k) == w.get(k) for k in keys)]
+        keys = [k for k in ("kind", "task", "config", "tn", "dir", "sacch", "channel", "frame", "layout_index", "last_proc", "fn") if k in w]
+        if w.get("kind") in ("chan-state", "consumer-lookup", "subst"):
+            hit = c11_sched.replay_witness(run, tables(run), w) or []
+        elif w.get("kind") == "fw-runtime":
+            hit = c11_fwrt.replay_witness(run, build_fw(run), w, tables(run)["fw"]) or []
+        else:
+            hit = [x for x in now if all(x.get(k) == w.get(k) for k in keys)]
+        for x in hit:
+            x.pop("replay", None)
         print("replay %s: %s" % ({k: w[k] for k in keys}, "still fails: %s" % json.dumps(hit[0]) if hit else "holds now"))
         bad += bool(hit)
     if bad:
